@@ -309,6 +309,11 @@ func (m *Module) Position(pos token.Pos) string {
 	}
 	p := m.Fset.Position(pos)
 	name := p.Filename
+	if strings.HasPrefix(m.Name, "corpus:") && m.Dir != "" {
+		if r, err := filepath.Rel(m.Dir, name); err == nil && !strings.HasPrefix(r, "..") {
+			return fmt.Sprintf("generated(%s)/%s:%d", strings.TrimPrefix(m.Name, "corpus:"), r, p.Line)
+		}
+	}
 	if r, err := filepath.Rel(RepoRoot, name); err == nil && !strings.HasPrefix(r, "..") {
 		name = r
 	}
@@ -373,4 +378,9 @@ func DeclName(fd *ast.FuncDecl) string {
 		return "(*" + n + ")." + fd.Name.Name
 	}
 	return n + "." + fd.Name.Name
+}
+
+// EmptyModule is a placeholder for a corpus entry whose generation failed.
+func EmptyModule(name string) *Module {
+	return &Module{Name: name, Fset: token.NewFileSet(), Pkgs: map[string]*packages.Package{}, AllByPath: map[string]*packages.Package{}}
 }
